@@ -193,6 +193,9 @@ impl Property for C12 {
     fn timeout(&self) -> std::time::Duration {
         std::time::Duration::from_secs(120)
     }
+    fn fuzz_gen(&self, g: &mut G) -> Option<Value> {
+        Some(gen_c12_case(g))
+    }
     fn prepare(&self, c: &Value) -> Unit {
         let Ok(settings) = serde_json::from_value::<Settings>(c["settings"].clone()) else { return invalid_unit("settings".into()) };
         let doc = &c["doc"];
@@ -238,8 +241,8 @@ impl Property for C12 {
                 unit.violations.push(Violation::new("key-order-or-whitespace-changes-output", format!("permuted text gives different output; first difference near byte {}", o.bytes().zip(base.bytes()).position(|(a, b)| a != b).unwrap_or(o.len().min(base.len())))));
             }
         }
-        // (3) fresh processes
-        for _ in 0..2 {
+        // (3) fresh processes (not from inside the libFuzzer target)
+        for _ in 0..if crate::fuzzing::in_fuzz() { 0 } else { 2 } {
             match render_in_child(&settings, &t0) {
                 Ok(o) => {
                     if o != base {
